@@ -412,7 +412,10 @@ void mmd_assign_line_type(mmd_engine * e, token * line) {
 		first_child = first_child->next;
 	} else if (first_child->type == TEXT_PLAIN && first_child->len == 1) {
 		if (source[first_child->start] == ' ') {
-			//token_remove_first_child(line);
+			// A single leading space is non-indenting space as well (after a line
+			// ending the lexer folds it into the newline token, but not on the
+			// first line of the text)
+			first_child->type = NON_INDENT_SPACE;
 			first_child = first_child->next;
 		}
 	}
